@@ -40,7 +40,7 @@ const (
 	giveUpAfterMs = 400   // a hanging node that ignores its context gives up this long after the hard timeout
 	perturbMs     = 85.0  // a sleep that overshoots by more than this marks the case as perturbed
 	causalEpsMs   = 3.0
-	batchSize     = 32
+	batchSize     = 48
 )
 
 // Node is the script of one beacon node double.
@@ -110,17 +110,53 @@ type Case struct {
 	TimeoutMs int     `json:"timeout_ms"`
 	Threshold int     `json:"threshold"` // attestationdata/majority only
 	Pool      []Value `json:"pool"`
-	Nodes     []Node  `json:"nodes"`
+	Nodes     []Node  `json:"nodes"` // scripts of the nodes for the first call
+	// More: further calls (other slots / block ids) on the same strategy
+	// instance, each with its own script for every node
+	More []Step `json:"more,omitempty"`
+	// Epoch0: the history takes place in epoch 0 instead of epoch 1000
+	Epoch0 bool `json:"epoch0,omitempty"`
+
+	k int // set in the per-call view handed to the oracle: index of the call
 }
 
+// Step is one further call of a history.
+type Step struct {
+	GapMs int    `json:"gap_ms"` // pause between the return of the previous call and this one
+	Nodes []Node `json:"nodes"`
+}
+
+func (c *Case) steps() [][]Node {
+	r := [][]Node{c.Nodes}
+	for _, s := range c.More {
+		r = append(r, s.Nodes)
+	}
+	return r
+}
+
+// view is the case as the per-call oracle sees call k.
+func (c *Case) view(k int) *Case {
+	v := *c
+	v.Nodes = c.steps()[k]
+	v.More = nil
+	v.k = k
+	return &v
+}
+
+// headDist: how many slots the head / root of pool value i lies behind the
+// slot of the first call (-1: unknown to the cache); never before slot 0.
 func headDist(c *Case, i int) int64 {
+	d := int64(-1)
 	switch strategies[c.Strategy].Family {
 	case "att":
-		return c.Pool[i].B
+		d = c.Pool[i].B
 	case "root":
-		return c.Pool[i].A
+		d = c.Pool[i].A
 	}
-	return -1
+	if d > c.slot(0) {
+		d = c.slot(0)
+	}
+	return d
 }
 
 // ---------------------------------------------------------------------------
@@ -135,6 +171,55 @@ var weightedNames = func() []string {
 	}
 	return r
 }()
+
+// genNodes draws the scripts of the n nodes for one call.
+func genNodes(t *rapid.T, info stratInfo, n, poolN, soft, hard int) []Node {
+	var nodes []Node
+	kinds := []string{"value", "value", "value", "value", "value", "value", "error", "error", "hang"}
+	if len(info.Invalid) > 0 {
+		kinds = append(kinds, "invalid", "invalid")
+	}
+	for i := 0; i < n; i++ {
+		nd := Node{Kind: choose(t, "kind", kinds)}
+		switch nd.Kind {
+		case "value":
+			nd.Val = between(t, "val", 0, poolN-1)
+		case "invalid":
+			nd.Val = between(t, "val", 0, poolN-1)
+			nd.Inv = choose(t, "inv", info.Invalid)
+		case "error":
+			nd.Err = choose(t, "err", []string{"plain", "plain", "api404", "api503", "api500"})
+		}
+		if nd.Kind != "hang" {
+			class := choose(t, "class", []string{"early", "early", "early", "early", "early", "mid", "mid", "late", "same", "same"})
+			if class == "same" {
+				var prev []int
+				for j := 0; j < i; j++ {
+					if nodes[j].Kind != "hang" {
+						prev = append(prev, j)
+					}
+				}
+				if len(prev) == 0 {
+					class = "early"
+				} else {
+					j := choose(t, "sameAs", prev)
+					nd.Class, nd.LatMs = nodes[j].Class, nodes[j].LatMs
+				}
+			}
+			switch class {
+			case "early":
+				nd.Class, nd.LatMs = class, between(t, "early", 0, soft-marginMs)
+			case "mid":
+				nd.Class, nd.LatMs = class, between(t, "mid", soft+marginMs, hard-marginMs)
+			case "late":
+				nd.Class, nd.LatMs = class, between(t, "late", hard+marginMs, hard+marginMs+100)
+			}
+		}
+		nd.IgnoreCtx = between(t, "ignoreCtx", 0, 3) == 0
+		nodes = append(nodes, nd)
+	}
+	return nodes
+}
 
 // uni draws an index in [0,n) that is uniform: rapid's own integer generators
 // favour small values, which would distort the weights below.  The randomness
@@ -186,56 +271,29 @@ func genCase(t *rapid.T) Case {
 			v.D = int64(between(t, "blinded", int(0), int(1)))
 			v.CV = choose(t, "consensusValue", weiValues)
 			v.EV = choose(t, "executionValue", weiValues)
+			if between(t, "zeroValue", 0, 3) == 0 {
+				v.CV, v.EV = "0", "0" // a node that does not report block values
+			}
 		case "sync":
-			v.A = choose(t, "set", []int64{0, 1, 1, 64, 127, 128, 128})
+			v.A = choose(t, "set", []int64{0, 0, 1, 1, 64, 127, 128, 128})
 		case "root":
 			v.A = choose(t, "rootDist", []int64{-1, 0, 0, 1, 1, 2, 40})
 		}
 		c.Pool = append(c.Pool, v)
 	}
-	kinds := []string{"value", "value", "value", "value", "value", "value", "error", "error", "hang"}
-	if len(info.Invalid) > 0 {
-		kinds = append(kinds, "invalid", "invalid")
+	c.Nodes = genNodes(t, info, n, poolN, soft, hard)
+	calls := choose(t, "calls", []int{1, 1, 2, 2, 2, 3})
+	for k := 1; k < calls; k++ {
+		c.More = append(c.More, Step{
+			GapMs: choose(t, "gap", []int{0, 0, 150, 500}),
+			Nodes: genNodes(t, info, n, poolN, soft, hard),
+		})
 	}
-	for i := 0; i < n; i++ {
-		nd := Node{Kind: choose(t, "kind", kinds)}
-		switch nd.Kind {
-		case "value":
-			nd.Val = between(t, "val", 0, poolN-1)
-		case "invalid":
-			nd.Val = between(t, "val", 0, poolN-1)
-			nd.Inv = choose(t, "inv", info.Invalid)
-		case "error":
-			nd.Err = choose(t, "err", []string{"plain", "plain", "api404", "api503", "api500"})
-		}
-		if nd.Kind != "hang" {
-			class := choose(t, "class", []string{"early", "early", "early", "early", "early", "mid", "mid", "late", "same", "same"})
-			if class == "same" {
-				var prev []int
-				for j := 0; j < i; j++ {
-					if c.Nodes[j].Kind != "hang" {
-						prev = append(prev, j)
-					}
-				}
-				if len(prev) == 0 {
-					class = "early"
-				} else {
-					j := choose(t, "sameAs", prev)
-					nd.Class, nd.LatMs = c.Nodes[j].Class, c.Nodes[j].LatMs
-				}
-			}
-			switch class {
-			case "early":
-				nd.Class, nd.LatMs = class, between(t, "early", 0, soft-marginMs)
-			case "mid":
-				nd.Class, nd.LatMs = class, between(t, "mid", soft+marginMs, hard-marginMs)
-			case "late":
-				nd.Class, nd.LatMs = class, between(t, "late", hard+marginMs, hard+marginMs+100)
-			}
-		}
-		nd.IgnoreCtx = between(t, "ignoreCtx", 0, 3) == 0
-		c.Nodes = append(c.Nodes, nd)
+	epoch0 := 8
+	if info.Family == "att" {
+		epoch0 = 4
 	}
+	c.Epoch0 = between(t, "epoch0", 1, epoch0) == 1
 	if name == "attestationdata/majority" {
 		c.Threshold = between(t, "threshold", 0, n)
 	}
@@ -404,7 +462,6 @@ func canaryMaxMs(from, to time.Time) float64 {
 // Execution.
 
 type observation struct {
-	Harness  string // non-empty: the harness could not execute the case
 	Returned bool
 	RMs      float64
 	Err      string
@@ -420,107 +477,150 @@ type observation struct {
 	TimerLateMs float64
 }
 
-func run(c *Case) *observation {
+// history is what was observed of a whole case: one observation per call.
+type history struct {
+	Harness string // non-empty: the harness could not execute the case
+	Calls   []*observation
+}
+
+func run(c *Case) *history {
 	startCanary()
 	zerolog.SetGlobalLevel(zerolog.Disabled)
-	o := &observation{}
-	if _, ok := strategies[c.Strategy]; !ok || len(c.Nodes) == 0 || len(c.Pool) == 0 {
-		o.Harness = "malformed case"
-		return o
+	h := &history{}
+	steps := c.steps()
+	if _, ok := strategies[c.Strategy]; !ok || len(c.Nodes) == 0 || len(c.Pool) == 0 || len(steps) > maxCalls {
+		h.Harness = "malformed case"
+		return h
 	}
-	for _, n := range c.Nodes {
-		if n.Val < 0 || n.Val >= len(c.Pool) {
-			o.Harness = "malformed case: value index out of range"
-			return o
+	for _, nodes := range steps {
+		if len(nodes) != len(c.Nodes) {
+			h.Harness = "malformed case: every call needs a script for every node"
+			return h
+		}
+		for _, n := range nodes {
+			if n.Val < 0 || n.Val >= len(c.Pool) {
+				h.Harness = "malformed case: value index out of range"
+				return h
+			}
 		}
 	}
-	w := &world{c: c, obs: make([]nodeObs, len(c.Nodes))}
+	w := &world{c: c, steps: steps, t0: make([]time.Time, len(steps)), obs: make([][]nodeObs, len(steps))}
+	for k := range steps {
+		w.obs[k] = make([]nodeObs, len(c.Nodes))
+	}
 	ctx, cancel := context.WithCancel(context.Background())
 	defer cancel()
-	w.t0 = time.Now()
 	call, err := build(ctx, w)
 	if err != nil {
-		o.Harness = "cannot construct " + c.Strategy + ": " + err.Error()
-		return o
+		h.Harness = "cannot construct " + c.Strategy + ": " + err.Error()
+		return h
 	}
 	hard := time.Duration(c.TimeoutMs) * time.Millisecond
-	done := make(chan struct{})
-	var refTimers [2]*time.Timer
-	var refFired [2]atomic.Int64
-	begin := time.Now()
-	w.t0 = begin
-	go func() {
-		defer close(done)
-		defer func() {
-			if r := recover(); r != nil {
-				o.Panic = fmt.Sprintf("%v\n%s", r, debug.Stack())
-				o.RMs = w.sinceMs()
+	type window struct{ from, to time.Time }
+	var windows []window
+	lastBegin := time.Now()
+	for k := range steps {
+		if k > 0 {
+			time.Sleep(time.Duration(c.More[k-1].GapMs) * time.Millisecond)
+		}
+		o := &observation{}
+		h.Calls = append(h.Calls, o)
+		done := make(chan struct{})
+		var refTimers [2]*time.Timer
+		var refFired [2]atomic.Int64
+		begin := time.Now()
+		lastBegin = begin
+		w.mu.Lock()
+		w.t0[k] = begin
+		w.mu.Unlock()
+		go func() {
+			defer close(done)
+			defer func() {
+				if r := recover(); r != nil {
+					o.Panic = fmt.Sprintf("%v\n%s", r, debug.Stack())
+					o.RMs = w.sinceMs(k)
+				}
+			}()
+			// reference timers, created by the goroutine (and so on the timer heap)
+			// that creates the strategy's own soft and hard timers a moment later
+			for j, due := range []time.Duration{hard / 2, hard} {
+				j := j
+				refTimers[j] = time.AfterFunc(due, func() { refFired[j].Store(int64(time.Since(begin))) })
+			}
+			id, err := call(ctx, k)
+			o.RMs = w.sinceMs(k)
+			o.Returned = true
+			o.ID = id
+			if err != nil {
+				o.Failed, o.Err = true, err.Error()
 			}
 		}()
-		// reference timers, created by the goroutine (and so on the timer heap)
-		// that creates the strategy's own soft and hard timers a moment later
-		for k, due := range []time.Duration{hard / 2, hard} {
-			k := k
-			refTimers[k] = time.AfterFunc(due, func() { refFired[k].Store(int64(time.Since(begin))) })
+		hung := false
+		select {
+		case <-done:
+		case <-time.After(hard + 3*time.Second):
+			// the call under test did not return: that is a finding of the
+			// property itself (bounded time), reported by the judge.
+			o.RMs = math.Inf(1)
+			hung = true
 		}
-		id, err := call(ctx)
-		o.RMs = w.sinceMs()
-		o.Returned = true
-		o.ID = id
-		if err != nil {
-			o.Failed, o.Err = true, err.Error()
+		end := time.Now()
+		windows = append(windows, window{begin, end})
+		// by how much did a reference timer that was due before the return (or
+		// is overdue now) fire late?
+		for j, due := range []time.Duration{hard / 2, hard} {
+			if hung || refTimers[j] == nil {
+				continue
+			}
+			refTimers[j].Stop()
+			fired := time.Duration(refFired[j].Load())
+			dueMs := float64(due) / float64(time.Millisecond)
+			switch {
+			case fired > 0:
+				o.TimerLateMs = math.Max(o.TimerLateMs, float64(fired-due)/float64(time.Millisecond))
+			case o.RMs > dueMs:
+				o.TimerLateMs = math.Max(o.TimerLateMs, o.RMs-dueMs)
+			}
 		}
-	}()
-	select {
-	case <-done:
-	case <-time.After(hard + 3*time.Second):
-		// the call under test did not return: that is a finding of the
-		// property itself (bounded time), reported by the judge.
-		o.RMs = math.Inf(1)
+		if hung || o.Panic != "" {
+			break // the rest of the history is not executed
+		}
 	}
-	// join the node doubles (they all terminate by themselves)
-	ceiling := begin.Add(hard + (giveUpAfterMs+2000)*time.Millisecond)
+	// join the node doubles of all calls (they all terminate by themselves)
+	ceiling := lastBegin.Add(hard + (giveUpAfterMs+2000)*time.Millisecond)
 	grace := time.Now().Add(30 * time.Millisecond)
+	stuck := false
 	for {
 		w.mu.Lock()
 		called := 0
-		for i := range w.obs {
-			if w.obs[i].Called {
-				called++
+		for k := range h.Calls {
+			for i := range w.obs[k] {
+				if w.obs[k][i].Called {
+					called++
+				}
 			}
 		}
 		w.mu.Unlock()
-		if w.inflight.Load() == 0 && (called == len(c.Nodes) || time.Now().After(grace)) {
+		if w.inflight.Load() == 0 && (called == len(h.Calls)*len(c.Nodes) || time.Now().After(grace)) {
 			break
 		}
 		if time.Now().After(ceiling) {
-			o.Stuck = true
+			stuck = true
 			break
 		}
 		time.Sleep(4 * time.Millisecond)
 	}
 	w.mu.Lock()
-	o.Nodes = append([]nodeObs(nil), w.obs...)
-	w.mu.Unlock()
-	end := time.Now()
-	// by how much did a reference timer that was due before the return (or is
-	// overdue now) fire late?
-	for k, due := range []time.Duration{hard / 2, hard} {
-		if refTimers[k] != nil {
-			refTimers[k].Stop()
-		}
-		fired := time.Duration(refFired[k].Load())
-		dueMs := float64(due) / float64(time.Millisecond)
-		switch {
-		case fired > 0:
-			o.TimerLateMs = math.Max(o.TimerLateMs, float64(fired-due)/float64(time.Millisecond))
-		case o.RMs > dueMs:
-			o.TimerLateMs = math.Max(o.TimerLateMs, math.Min(o.RMs, float64(end.Sub(begin))/float64(time.Millisecond))-dueMs)
-		}
+	for k, o := range h.Calls {
+		o.Nodes = append([]nodeObs(nil), w.obs[k]...)
+		o.Stuck = stuck
 	}
-	o.CanaryMs = canaryMaxMs(begin, end)
-	o.Stalled = stalledDuring(begin, end)
-	return o
+	w.mu.Unlock()
+	for k, o := range h.Calls {
+		o.CanaryMs = canaryMaxMs(windows[k].from, windows[k].to)
+		o.Stalled = stalledDuring(windows[k].from, windows[k].to)
+	}
+	return h
 }
 
 // ---------------------------------------------------------------------------
@@ -555,9 +655,14 @@ func refScore(c *Case, i int) *big.Rat {
 	case "att":
 		// source epoch + target epoch, plus the head proximity 1/(1+distance)
 		// when the head slot is known
-		s := new(big.Rat).SetInt64((dutyEpoch - v.A) + dutyEpoch)
-		if v.B >= 0 {
-			s.Add(s, big.NewRat(1, 1+v.B))
+		// (for call k the requested slot is k slots after the first one)
+		source := c.epoch() - v.A
+		if source < 0 {
+			source = 0
+		}
+		s := new(big.Rat).SetInt64(source + c.epoch())
+		if d := headDist(c, i); d >= 0 {
+			s.Add(s, big.NewRat(1, 1+d+int64(c.k)))
 		}
 		return s
 	case "agg":
@@ -568,10 +673,11 @@ func refScore(c *Case, i int) *big.Rat {
 	case "sync":
 		return big.NewRat(v.A, 1) // bits set
 	case "root":
-		if v.A < 0 {
+		d := headDist(c, i)
+		if d < 0 {
 			return new(big.Rat) // unknown root counts as slot 0
 		}
-		return big.NewRat(dutySlot-v.A, 1) // latest = highest slot
+		return big.NewRat(c.slot(0)-d, 1) // latest = highest slot
 	}
 	return new(big.Rat)
 }
@@ -648,6 +754,9 @@ func judge(c *Case, o *observation) verdict {
 			return fail("invalid-returned:"+o.ID.Invalid, "a response failing the validity rule %q was returned", o.ID.Invalid)
 		case o.ID.Tag < 0 || o.ID.Tag >= len(c.Pool):
 			return fail("unknown-value-returned", "returned value (tag %d) is none of the values any node delivers", o.ID.Tag)
+		}
+		if o.ID.Call != c.k {
+			return fail("answer-to-another-request-returned", "the returned value (tag %d) was delivered in answer to request %d of the history, not to this one (%d)", o.ID.Tag, o.ID.Call, c.k)
 		}
 		X = o.ID.Tag
 		ok := false
@@ -965,11 +1074,11 @@ func firstLines(s string, n int) string {
 
 func describe(c *Case, o *observation) string {
 	var b strings.Builder
-	fmt.Fprintf(&b, "  strategy %s timeout %d ms threshold %d; returned after %.0f ms: ", c.Strategy, c.TimeoutMs, c.Threshold, o.RMs)
+	fmt.Fprintf(&b, "  call %d: strategy %s timeout %d ms threshold %d; returned after %.0f ms: ", c.k, c.Strategy, c.TimeoutMs, c.Threshold, o.RMs)
 	if o.Failed {
 		fmt.Fprintf(&b, "error %q\n", o.Err)
 	} else {
-		fmt.Fprintf(&b, "value tag %d invalid=%q nil=%v\n", o.ID.Tag, o.ID.Invalid, o.ID.Nil)
+		fmt.Fprintf(&b, "value tag %d (answer to request %d) invalid=%q nil=%v\n", o.ID.Tag, o.ID.Call, o.ID.Invalid, o.ID.Nil)
 	}
 	for i, n := range c.Nodes {
 		var ob nodeObs
@@ -990,61 +1099,93 @@ func behaviour(n Node) string {
 	return fmt.Sprintf("%s/%d/%s/%s/%s/%v", n.Kind, n.Val, n.Inv, n.Err, n.Class, n.IgnoreCtx)
 }
 
-// nontrivial: at least 2 nodes with at least 2 distinct behaviours and at least
-// one node that is not an early valid/erroring one (mid, late, hanging or
-// delivering an invalid value).
+// nontrivial: in at least one call of the history there are at least 2 nodes
+// with at least 2 distinct behaviours and at least one node that is not an
+// early valid/erroring one (mid, late, hanging or delivering an invalid value).
 func nontrivial(c *Case) bool {
 	if len(c.Nodes) < 2 {
 		return false
 	}
-	distinct := map[string]bool{}
-	interesting := false
-	for _, n := range c.Nodes {
-		distinct[behaviour(n)] = true
-		if n.Kind == "hang" || n.Kind == "invalid" || n.Class == "mid" || n.Class == "late" {
-			interesting = true
+	for _, nodes := range c.steps() {
+		distinct := map[string]bool{}
+		interesting := false
+		for _, n := range nodes {
+			distinct[behaviour(n)] = true
+			if n.Kind == "hang" || n.Kind == "invalid" || n.Class == "mid" || n.Class == "late" {
+				interesting = true
+			}
+		}
+		if len(distinct) >= 2 && interesting {
+			return true
 		}
 	}
-	return len(distinct) >= 2 && interesting
+	return false
 }
 
-func labelsOf(c *Case, o *observation, v *verdict) []string {
-	l := []string{"strategy:" + c.Strategy, "style:" + strategies[c.Strategy].Style, fmt.Sprintf("nodes:%d", len(c.Nodes))}
+// labelsOf: labels of the history; the outcome:/returned: labels are added
+// once per executed call (their counts are calls, not cases).
+func labelsOf(c *Case, h *history, v *verdict) []string {
+	steps := c.steps()
+	l := []string{"strategy:" + c.Strategy, "style:" + strategies[c.Strategy].Style, fmt.Sprintf("nodes:%d", len(c.Nodes)), fmt.Sprintf("calls:%d", len(steps))}
 	has := map[string]bool{}
-	lat := map[int]int{}
-	for _, n := range c.Nodes {
-		has["node-"+n.Kind] = true
-		if n.Class != "" {
-			has["node-"+n.Class] = true
+	for k, nodes := range steps {
+		lat := map[int]int{}
+		scoreZero := false
+		for _, n := range nodes {
+			has["node-"+n.Kind] = true
+			if n.Class != "" {
+				has["node-"+n.Class] = true
+			}
+			if n.IgnoreCtx && (n.Kind == "hang" || n.Class == "mid" || n.Class == "late") {
+				has["node-ignores-context"] = true
+			}
+			if n.Kind != "hang" {
+				lat[n.LatMs]++
+				if lat[n.LatMs] == 2 {
+					has["simultaneous-answers"] = true
+				}
+			}
+			if n.Kind == "value" && n.Class == "mid" {
+				if st := strategies[c.Strategy].Style; (st == "best" || st == "latest") && refScore(c.view(k), n.Val).Sign() == 0 {
+					scoreZero = true
+				}
+			}
 		}
-		if n.IgnoreCtx && (n.Kind == "hang" || n.Class == "mid" || n.Class == "late") {
-			has["node-ignores-context"] = true
+		if scoreZero {
+			has["score-zero-value-between-soft-and-hard"] = true
 		}
-		if n.Kind != "hang" {
-			lat[n.LatMs]++
-			if lat[n.LatMs] == 2 {
-				has["simultaneous-answers"] = true
+		// answers of this call that arrive after it has returned while another call follows
+		if k < len(h.Calls) && k+1 < len(steps) {
+			for _, ob := range h.Calls[k].Nodes {
+				if ob.Done && ob.AnsMs > h.Calls[k].RMs {
+					has["answers-carried-into-next-call"] = true
+				}
 			}
 		}
 	}
 	for k := range has {
 		l = append(l, k)
 	}
-	if o.Failed {
-		l = append(l, "outcome:error")
-	} else {
-		l = append(l, "outcome:value")
+	if c.Epoch0 {
+		l = append(l, "epoch-0")
 	}
 	H := float64(c.TimeoutMs)
-	switch {
-	case o.RMs < H/2-guardMs:
-		l = append(l, "returned:before-soft")
-	case o.RMs < H/2+guardMs:
-		l = append(l, "returned:at-soft")
-	case o.RMs < H-guardMs:
-		l = append(l, "returned:between-soft-and-hard")
-	default:
-		l = append(l, "returned:at-hard")
+	for _, o := range h.Calls {
+		if o.Failed {
+			l = append(l, "outcome:error")
+		} else {
+			l = append(l, "outcome:value")
+		}
+		switch {
+		case o.RMs < H/2-guardMs:
+			l = append(l, "returned:before-soft")
+		case o.RMs < H/2+guardMs:
+			l = append(l, "returned:at-soft")
+		case o.RMs < H-guardMs:
+			l = append(l, "returned:between-soft-and-hard")
+		default:
+			l = append(l, "returned:at-hard")
+		}
 	}
 	if c.Strategy == "attestationdata/majority" {
 		switch {
@@ -1073,16 +1214,30 @@ func labelsOf(c *Case, o *observation, v *verdict) []string {
 // Running, confirming, minimising, reporting.
 
 type outcome struct {
-	o *observation
+	o *history
 	v verdict
 }
 
+// runAndJudge executes the history and judges every executed call with the
+// per-call oracle; the verdict of the history is that of the first call that
+// disagrees.  If the machine did not keep time during any of the calls the
+// whole history counts as perturbed (state carries over between the calls).
 func runAndJudge(c *Case) outcome {
-	o := run(c)
-	if o.Harness != "" {
-		return outcome{o: o}
+	h := run(c)
+	if h.Harness != "" {
+		return outcome{o: h}
 	}
-	return outcome{o: o, v: judge(c, o)}
+	var v verdict
+	for k, o := range h.Calls {
+		vk := judge(c.view(k), o)
+		if v.Sig == "" && vk.Sig != "" {
+			v.Sig, v.Detail = vk.Sig, fmt.Sprintf("call %d of %d: %s", k, len(c.steps()), vk.Detail)
+		}
+		v.Perturbed = v.Perturbed || vk.Perturbed
+		v.Ambiguous = v.Ambiguous || vk.Ambiguous
+		v.Tie = v.Tie || vk.Tie
+	}
+	return outcome{o: h, v: v}
 }
 
 func runBatch(cs []Case) []outcome {
@@ -1124,17 +1279,42 @@ func clone(c *Case) Case {
 	d := *c
 	d.Pool = append([]Value(nil), c.Pool...)
 	d.Nodes = append([]Node(nil), c.Nodes...)
+	d.More = nil
+	for _, s := range c.More {
+		d.More = append(d.More, Step{GapMs: s.GapMs, Nodes: append([]Node(nil), s.Nodes...)})
+	}
 	return d
+}
+
+// stepNodes gives the node scripts of call k of d for modification.
+func stepNodes(d *Case, k int) []Node {
+	if k == 0 {
+		return d.Nodes
+	}
+	return d.More[k-1].Nodes
 }
 
 // simpler lists one-step simplifications of a failing case (deterministic).
 func simpler(c *Case) []Case {
 	var r []Case
 	hard := c.TimeoutMs
-	for k := range c.Nodes {
+	// fewer calls
+	if len(c.More) > 0 {
+		d := clone(c)
+		d.More = d.More[:len(d.More)-1]
+		r = append(r, d)
+		d = clone(c)
+		d.Nodes, d.More = d.More[0].Nodes, d.More[1:]
+		r = append(r, d)
+	}
+	// fewer nodes (a node is a provider: removed from every call)
+	for i := range c.Nodes {
 		if len(c.Nodes) > 1 {
 			d := clone(c)
-			d.Nodes = append(d.Nodes[:k:k], d.Nodes[k+1:]...)
+			d.Nodes = append(d.Nodes[:i:i], d.Nodes[i+1:]...)
+			for j := range d.More {
+				d.More[j].Nodes = append(d.More[j].Nodes[:i:i], d.More[j].Nodes[i+1:]...)
+			}
 			if d.Threshold > len(d.Nodes) {
 				d.Threshold = len(d.Nodes)
 			}
@@ -1146,50 +1326,66 @@ func simpler(c *Case) []Case {
 		d.Threshold--
 		r = append(r, d)
 	}
-	for k, n := range c.Nodes {
-		if n.IgnoreCtx {
+	if c.Epoch0 {
+		d := clone(c)
+		d.Epoch0 = false
+		r = append(r, d)
+	}
+	for j, s := range c.More {
+		if s.GapMs > 0 {
 			d := clone(c)
-			d.Nodes[k].IgnoreCtx = false
+			d.More[j].GapMs = 0
 			r = append(r, d)
 		}
-		if n.Kind == "invalid" || n.Kind == "hang" {
-			d := clone(c)
-			d.Nodes[k] = Node{Kind: "error", Err: "plain", Class: "early", LatMs: 0}
-			r = append(r, d)
-		}
-		if n.Kind == "error" && n.Err != "plain" {
-			d := clone(c)
-			d.Nodes[k].Err = "plain"
-			r = append(r, d)
-		}
-		if n.Val > 0 {
-			d := clone(c)
-			d.Nodes[k].Val = 0
-			r = append(r, d)
-		}
-		floor := 0
-		switch n.Class {
-		case "mid":
-			floor = hard/2 + marginMs
-		case "late":
-			floor = hard + marginMs
-		}
-		if n.Kind != "hang" && n.LatMs > floor {
-			d := clone(c)
-			d.Nodes[k].LatMs = floor
-			r = append(r, d)
-		}
-		if n.Kind != "hang" && n.Class != "early" && n.Class != "" {
-			d := clone(c)
-			d.Nodes[k].Class, d.Nodes[k].LatMs = "early", 0
-			r = append(r, d)
+	}
+	for k, nodes := range c.steps() {
+		for i, n := range nodes {
+			if n.IgnoreCtx {
+				d := clone(c)
+				stepNodes(&d, k)[i].IgnoreCtx = false
+				r = append(r, d)
+			}
+			if n.Kind == "invalid" || n.Kind == "hang" {
+				d := clone(c)
+				stepNodes(&d, k)[i] = Node{Kind: "error", Err: "plain", Class: "early", LatMs: 0}
+				r = append(r, d)
+			}
+			if n.Kind == "error" && n.Err != "plain" {
+				d := clone(c)
+				stepNodes(&d, k)[i].Err = "plain"
+				r = append(r, d)
+			}
+			if n.Val > 0 {
+				d := clone(c)
+				stepNodes(&d, k)[i].Val = 0
+				r = append(r, d)
+			}
+			floor := 0
+			switch n.Class {
+			case "mid":
+				floor = hard/2 + marginMs
+			case "late":
+				floor = hard + marginMs
+			}
+			if n.Kind != "hang" && n.LatMs > floor {
+				d := clone(c)
+				stepNodes(&d, k)[i].LatMs = floor
+				r = append(r, d)
+			}
+			if n.Kind != "hang" && n.Class != "early" && n.Class != "" {
+				d := clone(c)
+				stepNodes(&d, k)[i].Class, stepNodes(&d, k)[i].LatMs = "early", 0
+				r = append(r, d)
+			}
 		}
 	}
 	if len(c.Pool) > 1 {
 		used := 0
-		for _, n := range c.Nodes {
-			if n.Val > used {
-				used = n.Val
+		for _, nodes := range c.steps() {
+			for _, n := range nodes {
+				if n.Val > used {
+					used = n.Val
+				}
 			}
 		}
 		if used+1 < len(c.Pool) {
